@@ -491,3 +491,36 @@ package utils
 //@   site return #2:
 //@     assert [success-only-after-the-decoder-ran-out-of-input] ghost(0, "hecLastDecodeFailed") == 1
 //@ end
+
+// C02 (case-insensitive matching compares letters without regard to case and
+// everything else exactly): two bytes are equal "any case" iff they are the
+// same byte or the same ASCII letter in different case; two byte strings iff
+// they have the same length and every pair of bytes is.  For the containment
+// scan only the frame, panic-freedom and the two length cases are stated (the
+// window quantifier alternates, outside the clause language).  (foldByte(a): a with an upper-case ASCII
+// letter mapped to lower case.)
+//@ spec foldByte(a uint8) uint8 = ite(a >= 65 && a <= 90, a + 32, a)
+//@ func equalAsciiAnyCase
+//@   props C02
+//@   pure
+//@   safe
+//@   ensures [same-byte-or-same-letter] result == (foldByte(a) == foldByte(b))
+//@ end
+//@ func EqualAnyCase
+//@   props C02
+//@   pure
+//@   safe
+//@   ensures [equal-means-same-length-and-every-byte-pair-equal-up-to-case] implies(result, len(s1) == len(s2) && forall(k, 0, len(s1), foldByte(s1[k]) == foldByte(s2[k])))
+//@   ensures [unequal-means-another-length-or-some-byte-pair-differs-beyond-case] implies(!result, len(s1) != len(s2) || exists(k, 0, len(s1), foldByte(s1[k]) != foldByte(s2[k])))
+//@   loop 1:
+//@     invariant 0 <= i && i <= len(s1) && len(s1) == len(s2) && forall(k, 0, i, foldByte(s1[k]) == foldByte(s2[k]))
+//@ end
+//@ func ContainsAnyCase
+//@   props C02
+//@   pure
+//@   safe
+//@   ensures [an-empty-word-is-contained-in-everything] implies(len(word) == 0, result)
+//@   ensures [a-word-longer-than-the-value-is-not-contained] implies(len(word) > len(buf), !result)
+//@   loop 1:
+//@     invariant 0 <= i && len(word) > 0
+//@ end
